@@ -11,11 +11,13 @@ def combinators(s):
     """[(container decl or None, combinator-like with .fields, kind)]"""
     out = []
     for d in s.decls:
-        if d.kind == "typedef":
-            continue
+        if d.kind == "typedef" or d.base.startswith("zzNew"):
+            continue  # a type added by an earlier edit of the same pair is new: changing it is no incompatibility
         for c in d.constructors:
             out.append((d, c, "constructor"))
     for f in s.functions:
+        if ".zzFn" in f.name:
+            continue
         out.append((None, f, "function"))
     return out
 
@@ -42,6 +44,8 @@ def prim_positions(s):
                     pos = base if depth == 0 else (base + "/" + path if base == "brackets" else path)
                     out.append((c, f, t, pos + ("/function" if kind == "function" else "")))
     for fn in s.functions:
+        if ".zzFn" in fn.name:
+            continue
         for t, depth, path in walk_types(fn.result):
             if t.kind in ("prim",) and t.name in ("int", "long", "float", "double"):
                 out.append((fn, None, t, "function-result/" + path))
